@@ -66,7 +66,7 @@ def run(ctx, cases_override=None):
         raise MachineryError("model-level counterexample (%s) not reproduced on the real code: spec bug" % leads)
     recs = [r for r in trace if r["ev"] == "Case"]
     acc = [r for r in recs if r["accepted"]]
-    nontriv = {(r["opt"], r["cls"], json.dumps(r["rule"], sort_keys=True)) for r in acc}
+    nontriv = {(r["opt"], r["cls"], r["cls2"], json.dumps(r["rule"], sort_keys=True)) for r in acc}
     expanding = [r for r in acc if "{{" in r["text"]]
     k = len(recs) // 2
     cov = {
@@ -77,12 +77,14 @@ def run(ctx, cases_override=None):
                    [{k2: recs[k][k2] for k2 in ("opt", "cls", "text", "rule", "accepted", "exit", "panic")}],
         "evaluations": len(recs),
         "distinct_nontrivial": len(nontriv),
-        "rule": "GEN: every option of the table x every value class of its type x rule-content classes (quick: values that do not "
-                "reference rule fields meet 14 of the 62 rule classes; thorough: all pairs), TLC exhaustive; non-trivial = distinct "
-                "(option, value, rule) cases whose configuration the binary accepted, so that a lint run took place",
+        "rule": "GEN: every option of the table x every value class of its type x rule-content classes, plus 8 classes of two-option "
+                "configurations x value subsets (TLC exhaustive). quick: values referencing rule fields meet all 62 rule classes, other "
+                "pattern options 15, options that are only parsed or copied 3, pairs 6; thorough: all (value, rule) pairs. non-trivial = "
+                "distinct (option(s), value(s), rule) cases whose configuration the binary accepted, so that a lint run took place",
         "exhaustive": True,
-        "options": len({r["opt"] for r in recs}), "configurations": len({(r["opt"], r["cls"]) for r in recs}),
-        "accepted_configurations": len({(r["opt"], r["cls"]) for r in acc}),
+        "options": len({r["opt"] for r in recs if not r["pair"]}), "option_pairs": len({r["opt"] for r in recs if r["pair"]}),
+        "pair_cases": sum(1 for r in recs if r["pair"]), "configurations": len({(r["opt"], r["cls"], r["cls2"]) for r in recs}),
+        "accepted_configurations": len({(r["opt"], r["cls"], r["cls2"]) for r in acc}),
         "lint_runs": sum(1 for r in recs if r["ran"]), "templated_lint_runs": len(expanding),
         "lint_runs_against_fake_prometheus": sum(1 for r in recs if r["ran"] and r["mode"] == "prom"),
         "hangs_observed_not_judged": hangs,
@@ -96,9 +98,10 @@ def run(ctx, cases_override=None):
         "on the rule file decides crash (exit status outside {0,1} or panic/SIGSEGV on stderr)",
         "one option under test per configuration; value classes have one concrete representative each; rules carry the metacharacter "
         "in the name, in label foo or in annotation summary",
-        "options of checks that query Prometheus (cost, alerts, promql/series settings, prometheus{}) are linted against a minimal fake "
-        "server inside the harness holding one always-present series; discovery{} and repository{} are not covered",
-        "a lint run that outlives the 25 s deadline twice is recorded as a hang and reported as a NOTE: a stall is not a crash",
+        "options of checks that query Prometheus (cost, alerts, promql/series settings, prometheus{}, discovery{}) are linted against a "
+        "minimal fake server inside the harness (one series that is always present, a metric `gone` that only has history); "
+        "repository{} options are covered for acceptance only (a lint run never reads them; `pint ci` reporters are not run)",
+        "a lint run that outlives the 12 s deadline twice is recorded as a hang and reported as a NOTE: a stall is not a crash",
     ], drift=drift)
 
 
